@@ -159,6 +159,13 @@ def run_driver(exe, lines, env=None, chunk=400, timeout=1800, cpu_limit=600, mem
         # CPU time and address space of every driver process are bounded; the process then dies and its cases count as crashed
         import resource
         resource.setrlimit(resource.RLIMIT_CPU, (cpu_limit, cpu_limit + 5))
+        try:
+            # the extracted model recurses over lists (tens of thousands of bins in the thorough tier): give it the stack
+            soft, hard = resource.getrlimit(resource.RLIMIT_STACK)
+            want = 4 * 2 ** 30 if hard == resource.RLIM_INFINITY else hard
+            resource.setrlimit(resource.RLIMIT_STACK, (want, hard))
+        except (ValueError, OSError):
+            pass
         if mem_limit:
             resource.setrlimit(resource.RLIMIT_AS, (mem_limit, mem_limit))
     def one(c):
